@@ -96,6 +96,7 @@ structure Ver where
   hdrs : KVs := []            -- content-encoding/-language/-disposition, cache-control, expires; sorted
   tags : Option KVs := none   -- sorted
   hold : Bool := false
+  holdSet : Bool := false     -- a legal-hold status was ever written for this version
   retention : Option Retention := none
   deriving Repr, DecidableEq, BEq
 
@@ -124,7 +125,8 @@ inductive Ownership where | bucketOwnerEnforced | bucketOwnerPreferred | objectW
 structure LockCfg where
   enabled : Bool
   defMode : Option LockMode := none
-  defDays : Nat := 0          -- default retention in days (years are sent as 365-day multiples)
+  defDays : Nat := 0          -- default retention in days
+  createdAt : Int := 0        -- when the configuration was stored
   deriving Repr, DecidableEq, BEq
 
 structure Bucket where
